@@ -48,6 +48,8 @@ use crate::RefCnt;
 const NODE_UNUSED: usize = 0;
 const NODE_USED: usize = 1;
 const NODE_COOLDOWN: usize = 2;
+/// In cooldown and someone is just deciding if the cooldown is over (see `check_cooldown`).
+const NODE_COOLDOWN_CHECK: usize = 3;
 
 /// The head of the debt linked list.
 static LIST_HEAD: AtomicPtr<Node> = AtomicPtr::new(ptr::null_mut());
@@ -129,15 +131,25 @@ impl Node {
         // * More importantly, sync the value of active_writers to be at least the value when the
         //   cooldown started. That way we know the 0 we observe happened some time after
         //   start_cooldown.
-        if self.in_use.load(Acquire) == NODE_COOLDOWN {
-            // The rest can be nicely relaxed ‒ no memory is being synchronized by these
-            // operations. We just see an up to date 0 and allow someone (possibly us) to claim the
-            // node later on.
-            if self.active_writers.load(Relaxed) == 0 {
-                let _ = self
-                    .in_use
-                    .compare_exchange(NODE_COOLDOWN, NODE_UNUSED, Relaxed, Relaxed);
-            }
+        //
+        // We take the node over for the duration of the check (nobody can claim it or finish the
+        // cooldown in the meantime). Looking at the writers and releasing the node afterwards in two
+        // independent steps is not enough: in between, someone else could release the node, claim
+        // it, use it and retire it into *another* cooldown, one that has writers in it. We would
+        // then finish that one based on the 0 we saw during the previous one, and a writer still
+        // holding a generation of the previous owner could meet the same generation of the next one.
+        if self
+            .in_use
+            .compare_exchange(NODE_COOLDOWN, NODE_COOLDOWN_CHECK, Acquire, Relaxed)
+            .is_ok()
+        {
+            let next = if self.active_writers.load(Relaxed) == 0 {
+                NODE_UNUSED
+            } else {
+                NODE_COOLDOWN
+            };
+            // Release, to pass on what we have acquired from whoever started the cooldown.
+            self.in_use.store(next, Release);
         }
     }
 
